@@ -386,8 +386,7 @@ def command_table(ctx, f):
                         if isinstance(n, ast.Subscript) and u(n.value) == 'arguments' and isinstance(n.slice, ast.Constant):
                             maxidx = max(maxidx, n.slice.value)
                 for l in lits:
-                    out[l] = (exact, maxidx + 1, t)
-            break
+                    out.setdefault(l, (exact, maxidx + 1, t))
     return out
 
 
